@@ -2,7 +2,7 @@
     pruning keeps the order).  With [ExactFullZeroU] this gives the aggregate zero-gap bound for an
     unbounded blocker without any side condition ([cut_semantics_zero_unbounded_batches]). *)
 From HQ Require Import Base.Prelude Gen.Consts Sched.Model Sched.ProofsRows Sched.ProofsCuts Sched.ProofsExact
-  Sched.ExactFullMerge Sched.ExactFullZeroU.
+  Sched.ExactFullMerge Sched.ExactFullZeroU Sched.ExactFullInst.
 Require Import ZifyBool ZifyN ZifyNat.
 From Coq Require Import Sorting.Sorted.
 Open Scope N_scope.
@@ -76,7 +76,7 @@ Proof.
   unfold st1 in He. rewrite mapi_from_nth in He. cbn [Nat.add] in He.
   destruct (nth_error st idx) as [e0|] eqn:E0; [|discriminate].
   unfold is_higher in He. rewrite Nat.eqb_refl in He. cbn [negb andb] in He. injection He as <-.
-  apply (Cinv_push e0 (hb :: hp)). exact Hc.
+  unfold ent in E0. rewrite E0. apply (Cinv_push e0 (hb :: hp)). exact Hc.
 Qed.
 
 Lemma advance_at_Cinv : forall st i, Forall Cinv st -> Forall Cinv (map_at advance_one st i).
@@ -192,6 +192,22 @@ Theorem cut_semantics_zero_unbounded_batches : forall I bs m s b c h,
 Proof.
   intros I bs m s b c h Hbs Hm Hf Hb Hcv Hc Hbl.
   apply (cut_semantics_zero_unbounded I bs m s b c h Hm Hf Hb Hcv (batches_cuts_sorted I bs b Hbs Hb) Hc Hbl).
+Qed.
+
+(** the hypotheses are satisfiable: class 0 hits its limit, the last cut of class 1 names it as an
+    unbounded blocker, the gap of the worker is zero (so the aggregate row is the only bound) *)
+Example zero_unbounded_instance :
+  let I := yinst 11 9 [1] 3 2 [(9, [1; 2]); (5, [3]); (2, [4; 5])] [(7, [11]); (5, [12; 13]); (3, [14]); (1, [15])] in
+  exists bs m b c, create_task_batches I = Ok bs /\ milp_of I bs = Ok m /\ In b bs /\ b_rq b = 1
+    /\ count_vars I bs (b_rq b) <> [] /\ In c (b_cuts b) /\ c_size c = 4 /\ In (0, None) (c_blockers c)
+    /\ zero_gap I (xworker 11 9 [1]) 0 1 = true
+    /\ feasible m (fun v => match v with VX 1 0 => 2%Z | VX 1 1 => 1%Z | VB 0 3 => 1%Z | VB 1 4 => 1%Z | _ => 0%Z end) = true.
+Proof.
+  cbv zeta. eexists. eexists. eexists. eexists.
+  split; [vm_compute; reflexivity|]. split; [vm_compute; reflexivity|].
+  split; [right; left; reflexivity|]. split; [reflexivity|]. split; [vm_compute; discriminate|].
+  split; [right; right; right; left; reflexivity|]. split; [reflexivity|]. split; [left; reflexivity|].
+  split; vm_compute; reflexivity.
 Qed.
 
 Print Assumptions cut_semantics_zero_unbounded_batches.
